@@ -177,6 +177,16 @@ Keywords == {"TRUE", "FALSE", "AND", "OR", "AS", "ASC", "AVG", "BEGIN", "BY", "C
              "VALUES", "WHEN", "WHERE", "WITH"}
 Puncts   == {"!", "*", "=", "!=", ">", "<", "<=", ">=", "(", ")", ",", ".", ";"}
 
+\* keywords that begin a statement, keywords the grammar uses at all, and the tokens that therefore can
+\* never continue a complete statement: a text "statement + such a token" is not the beginning of any
+\* statement, so it must not be read as that statement (GrammarUsesOnly checks the premise on the universe)
+InitialKeywords == {"SELECT", "INSERT", "UPDATE", "DELETE", "CREATE", "USE", "SHOW"}
+GrammarKeywords == InitialKeywords \cup
+            {"TRUE", "FALSE", "AND", "OR", "AS", "ASC", "AVG", "BY", "COUNT", "DATABASE", "DESC", "FROM", "GROUP",
+             "INNER", "INTO", "JOIN", "LEFT", "LIMIT", "OFFSET", "ON", "ORDER", "RIGHT", "SET", "BOOLEAN", "INT",
+             "BIGINT", "VARCHAR", "TABLE", "VALUES", "WHERE"}
+NeverContinues == {KW(w) : w \in (Keywords \ GrammarKeywords) \cup InitialKeywords} \cup {P("!")}
+
 \* source text that is not one clean token of the dialect
 RawTexts == {"99999999999999999999", "9223372036854775808", "0x10", "0x", "1_0", "1__0", "017", "08", "0b102",
              "1.5", ".5", "1.", "1e9", "1e", "1e+", "0x1p-2", "'", "''", "'abc", "'a b' c'", "`abc`", "`", "`abc",
@@ -354,8 +364,8 @@ Slice(name) ==
     [] name = "show"           -> {ShowD}
     [] name = "given"          -> Stmts
 
-\* the universe a configuration works with
-Universe == UNION {{s \in Slice(n) : StmtWF(s)} : n \in Slices}
+\* the universe a configuration works with (parameterised for the same reason)
+UniverseOf(names) == UNION {{s \in Slice(n) : StmtWF(s)} : n \in names}
 
 \* C10 counts these: a statement that exercises an optional construct or a boolean tree
 HasOptional(s) == \E i \in DOMAIN Toks(s, "LO") : Toks(s, "LO")[i].o \in {"kw", "legacy"}
@@ -436,6 +446,12 @@ TruncationInv ==
                   done == SubSeq(full, 1, Len(full) - Len(rest))
               IN  /\ rest = SubSeq(full, Len(full) - Len(rest) + 1, Len(full))
                   /\ IsSubseqKeepingRequired(toks, done)
+
+\* the statement proper uses grammar keywords only, and a statement keyword only in first position
+GrammarUsesOnly ==
+  junk = 0 => LET all == toks \o rest IN
+              /\ \A i \in 1..Len(all) : all[i].t = "KW" => all[i].v \in GrammarKeywords \cup {"DATABASES"}
+              /\ \A i \in 2..Len(all) : \A tk \in NeverContinues : ~(tk.t = all[i].t /\ tk.v = all[i].v)
 
 \* what the front end may answer, whatever the input (C09)
 Outcomes == {"stmt", "error"}
